@@ -322,12 +322,18 @@ Proof.
       rewrite forallb_forall in Hr, Hok. exact (IH x Hx (Hr x Hx) (Hok x Hx) td H).
 Qed.
 
+(* the references made inside the tree-form inline schemas of the fields resolve (Entity.v checks this on the declaration,
+   trees_ok; here it is a condition on the expansion's fields, like [closed]) *)
+Definition trees_closed (defs : list (bool * Entity.bytes)) (fs : list ofield) : bool :=
+  forallb (fun f => forallb (tfield_resolves defs) (tree_of f)) fs.
+
 Lemma comp_decls_nerr defs pok c :
   forallb (field_resolves defs) (Entity.fields_of [c]) = true ->
+  trees_closed defs (Entity.fields_of [c]) = true ->
   forallb ofield_ok_deep (Entity.fields_of [c]) = true -> comp_clean pok c = true ->
   forall td, In td (comp_decls defs pok c) -> d_nerr (decl_state (snd td)) = 0.
 Proof.
-  intros Hr Hok Hc td Hin.
+  intros Hr Ht Hok Hc td Hin.
   assert (Hacc : forall f, In f (Entity.fields_of [c]) -> prop_accepted (abs_prop defs f) = true).
   { intros f Hf. rewrite forallb_forall in Hr, Hok. specialize (Hr f Hf). specialize (Hok f Hf).
     unfold field_resolves in Hr. apply andb_prop in Hr. unfold ofield_ok_deep in Hok. apply andb_prop in Hok.
@@ -335,15 +341,16 @@ Proof.
   assert (Hinl : forall f il, In f (Entity.fields_of [c]) -> f_inline f = Some il ->
                   (il_tree il = [] -> forallb prop_accepted (map (fun sf => abs_prop defs (of_sfield sf)) (il_fields il)) = true)
                   /\ forallb (tfield_resolves defs) (il_tree il) = true /\ forallb tfield_ok (il_tree il) = true).
-  { intros f il Hf Hil. rewrite forallb_forall in Hr, Hok. specialize (Hr f Hf). specialize (Hok f Hf).
+  { intros f il Hf Hil. unfold trees_closed in Ht. rewrite forallb_forall in Hr, Hok, Ht.
+    specialize (Hr f Hf). specialize (Hok f Hf). specialize (Ht f Hf).
     unfold field_resolves in Hr. apply andb_prop in Hr. destruct Hr as [_ Hr]. rewrite Hil in Hr.
+    unfold tree_of in Ht. rewrite Hil in Ht.
     unfold ofield_ok_deep in Hok. apply andb_prop in Hok. destruct Hok as [_ Hok]. rewrite Hil in Hok.
     apply andb_prop in Hok. destruct Hok as [Hokf Hokt].
-    destruct (il_tree il) as [|tf0 tfs] eqn:Et.
-    - split; [|split; reflexivity]. intros _. apply forallb_forall. intros p Hp. apply in_map_iff in Hp.
-      destruct Hp as [sf [<- Hsf]]. rewrite forallb_forall in Hr, Hokf.
-      apply abs_prop_accepted; [exact (Hr sf Hsf)|exact (Hokf sf Hsf)].
-    - split; [discriminate|]. split; [exact Hr|exact Hokt]. }
+    split; [|split; [exact Ht|exact Hokt]].
+    intros _. apply forallb_forall. intros p Hp. apply in_map_iff in Hp.
+    destruct Hp as [sf [<- Hsf]]. rewrite forallb_forall in Hr, Hokf.
+    apply abs_prop_accepted; [exact (Hr sf Hsf)|exact (Hokf sf Hsf)]. }
   destruct c as [file m|n vs|file s]; cbn [comp_decls] in Hin.
   - assert (Hfs : forall l, incl l (Entity.fields_of [CMsg file m]) -> forallb prop_accepted (map (abs_prop defs) l) = true).
     { intros l Hl. apply forallb_forall. intros p Hp. apply in_map_iff in Hp. destruct Hp as [f [<- Hf]]. apply Hacc, Hl, Hf. }
@@ -384,15 +391,17 @@ Qed.
 (* a closed expansion with well-formed fields and clean services is accepted: every output file converts
    without an error and links *)
 Theorem entity_accepted : forall pok cs,
-  closed cs = true -> forallb ofield_ok_deep (Entity.fields_of cs) = true -> forallb (comp_clean pok) cs = true ->
+  closed cs = true -> trees_closed (defined cs) (Entity.fields_of cs) = true ->
+  forallb ofield_ok_deep (Entity.fields_of cs) = true -> forallb (comp_clean pok) cs = true ->
   entity_verdict pok cs = VOk.
 Proof.
-  intros pok cs Hcl Hok Hclean.
+  intros pok cs Hcl Htr Hok Hclean.
   assert (Hn : forall td, In td (entity_decls pok cs) -> d_nerr (decl_state (snd td)) = 0).
   { intros td Htd. unfold entity_decls in Htd. apply in_flat_map in Htd. destruct Htd as [c [Hc Htd]].
-    unfold closed in Hcl. rewrite forallb_forall in Hcl, Hok, Hclean.
-    eapply comp_decls_nerr; [| |apply Hclean; exact Hc|exact Htd].
+    unfold closed in Hcl. unfold trees_closed in Htr. rewrite forallb_forall in Hcl, Hok, Hclean, Htr.
+    eapply comp_decls_nerr; [| | |apply Hclean; exact Hc|exact Htd].
     - apply forallb_forall. intros f Hf. apply Hcl. eapply fields_of_single; eassumption.
+    - apply forallb_forall. intros f Hf. apply Htr. eapply fields_of_single; eassumption.
     - apply forallb_forall. intros f Hf. apply Hok. eapply fields_of_single; eassumption. }
   unfold entity_verdict.
   destruct (tstate_sound FMain (entity_decls pok cs) (entity_decls_no_listreq pok cs)) as [P1 L1].
